@@ -387,7 +387,9 @@ class BaseTemplate:
 
         filename = str(self.filename)
         if filename and filename != BaseTemplate.filename:
-            digest = os.path.splitext(filename)[0] + '-' + digest
+            # (in full: the extension is part of what the generated code
+            # reports as the template's file name)
+            digest = filename + '-' + digest
 
         return digest
 
